@@ -11,3 +11,18 @@ package zoekt
 //@   requires m != nil
 //@   ensures m.Score == old(m.Score) + computed
 //@   ensures !debugScore ==> m.Debug == old(m.Debug)
+
+// ---------------------------------------------------------------------------
+// C21: defaults of the match-count limits
+// ---------------------------------------------------------------------------
+
+// SetDefaults only fills in limits that are zero, and afterwards a zero
+// per-shard limit has become positive (so "no limit given" never means "stop
+// at once").
+//@ func zoekt.(*SearchOptions).SetDefaults
+//@   requires o != nil
+//@   ensures old(o.ShardMaxMatchCount) != 0 ==> o.ShardMaxMatchCount == old(o.ShardMaxMatchCount)
+//@   ensures old(o.ShardMaxMatchCount) == 0 ==> o.ShardMaxMatchCount == 100000
+//@   ensures old(o.TotalMaxMatchCount) != 0 ==> o.TotalMaxMatchCount == old(o.TotalMaxMatchCount)
+//@   ensures old(o.TotalMaxMatchCount) == 0 ==> o.TotalMaxMatchCount == 10 * o.ShardMaxMatchCount
+//@   assigns o.ShardMaxMatchCount, o.TotalMaxMatchCount
